@@ -9,12 +9,13 @@ from . import common, elements, c17, rt
 
 PROP = 'C18'
 MOD = 'mirsym.checks.c18'
-PROPS = "s?: string; n?: number; fn?: () => void; ff?: Function; 'q-k'?: string; u?: string | number; cb?(): number; o?: object; p?: Promise<string>; fu?: (() => void) | string"
-PRE = "const v1 = 1, f1 = () => 2, s = 'sh', fn = () => {{}}, kk = 's';\nconst dyn: any = {{}};\n"
+PROPS = "s?: string; n?: number; fn?: () => void; ff?: Function; 'q-k'?: string; u?: string | number; cb?(): number; o?: object; p?: Promise<string>; fu?: (() => void) | string; 'qq'?: string; 'qf'?(): number; 'qn'?: number"
+PRE = "const v1 = 1, f1 = () => 2, s = 'sh', fn = () => {{}}, kk = 's', qq = 'shq';\nconst dyn: any = {{}};\n"
 ENTRIES = {
     'lit': "s: 'hi'", 'num': 'n: 1', 'neg': 'n: -1', 'tpl': 's: `t`', 'expr': 'n: v1', 'call': 's: f1()', 'arr': 'o: [1, 2]', 'obj': 'o: {{ a: 1 }}', 'null': 'o: null',
-    'fnarrow': 'fn: () => {{}}', 'fnident': 'fn: f1', 'ffarrow': 'ff: () => 1', 'fnfn': 'fn: function () {{}}', 'fuarrow': 'fu: () => {{}}', 'short': 's', 'shortfn': 'fn',
+    'fnarrow': 'fn: () => {{}}', 'fnident': 'fn: f1', 'ffarrow': 'ff: () => 1', 'fnfn': 'fn: function () {{}}', 'fuarrow': 'fu: () => {{}}', 'short': 's', 'shortfn': 'fn', 'tqshort': 'qq',
     'getter': "get s() {{ return 'g' }}", 'method': 'cb() {{ return 1 }}', 'amethod': "async p() {{ return 'x' }}", 'quoted': "'q-k': 'x'", 'quoted2': "'s': 'x'",
+    'tq': "qq: 'y'", 'tqexpr': 'qq: f1()', 'tqget': "get qq() {{ return 'g' }}", 'tqmethod': 'qf() {{ return 3 }}', 'tqcomp': "['qq']: 'c'", 'tqnum': 'qn: 2',
     'complit': "['s']: 'x'", 'compnum': "[1]: 'x'", 'extra': 'zzz: 1', 'methodq': "'cb'() {{ return 2 }}",
 }
 DYNAMIC = {'ident': 'dyn', 'spread': '{{ ...dyn }}', 'spread2': "{{ s: 'hi', ...dyn }}", 'computed': '{{ [v1]: 1 }}', 'compident': "{{ [kk]: 'x' }}", 'compcall': "{{ [f1()]: 1 }}", 'call': 'f1()',
